@@ -2,6 +2,7 @@ import Driver.Proto
 import XmlRsModel.Chars
 import XmlRsModel.Names
 import XmlRsModel.CharData
+import Driver.Dump
 /-! Operations of the model driver. -/
 namespace Driver
 open XmlRs
@@ -126,6 +127,8 @@ def chardata (kind : String) (content : Str) (ops : List Str) : String :=
 def dispatch (op : String) (args : List Str) : String :=
   match op, args with
   | "nameok", [k, s] => nameok (String.ofList k) s
+  | "parse", [s] => opParse s
+  | "print", [s] => opPrint s
   | "chardata", k :: c :: ops => chardata (String.ofList k) c ops
   | _, _ => "bad-op"
 
